@@ -193,6 +193,12 @@ def edits(tree):
             if n.keywords and n.keywords[0].arg:
                 yield mut(lambda m, t: (m.args.append(m.keywords[0].value), m.keywords.pop(0)) and None, "keyword->positional")
             yield mut(lambda m, t: m.args.append(ast.Constant(value=0)), "add-arg")
+            if n.args and not isinstance(n.args[0], ast.Starred):
+                # one more level of nesting that a clean-up pass would take away again: an empty metadata block, an identity Select
+                yield mut(lambda m, t: m.args.__setitem__(0, ast.Call(func=ast.Name(id="MetaData", ctx=ast.Load()), args=[m.args[0], ast.Dict(keys=[], values=[])], keywords=[])),
+                          "wrap-arg-in-empty-MetaData")
+                yield mut(lambda m, t: m.args.__setitem__(0, ast.Call(func=ast.Name(id="Select", ctx=ast.Load()), args=[m.args[0], ast.parse("lambda x: x", mode="eval").body], keywords=[])),
+                          "wrap-arg-in-identity-Select")
         if isinstance(n, ast.BinOp):
             yield mut(lambda m, t: setattr(m, "op", ast.Sub() if isinstance(m.op, ast.Add) else ast.Add()), "binop-op")
             yield mut(lambda m, t: (lambda l, r: (setattr(m, "left", r), setattr(m, "right", l)))(m.left, m.right) and None, "binop-swap")
